@@ -6,9 +6,11 @@ CONSTANTS
   Kinds = {"FixedArray", "FixedArrayView"}
   Modes = {"src", "size", "copy", "fview"}
   Acts = {"Construct", "Assign", "Reset", "ResetPtr", "Resize", "Write", "Destroy", "SrcMake", "SrcWrite", "SrcResize", "SrcDestroy"}
+  Sizes = {0, 1, 2, 3}
   MaxLen = 3
   ArrLen = 3
   PtrSel = "few"
+  Palettes = {0}
   Sym = TRUE
   Excl = {}
   Variant = "contract"
